@@ -467,7 +467,96 @@ def r55(facts, res):
                     % (kind, got[0], 'advanced' if got[1] else 'NOT advanced', '' if got[2] else ', lexeme not taken at the running index'))
 
 
+def r56(facts, res, R='R5.6'):
+    """Replaying a reported sequence on the real stacks does what the sequence says: Insert parses one synthesised (faulty)
+    lexeme over [i, i+1) and leaves the input index alone, Delete moves the index on by one and parses nothing, Shift parses
+    the real input over exactly [i, i+1) and continues from the index that parse returns."""
+    fs = [x for x in facts.lib_bodies(['lrpar']) if x.name == 'apply_repairs' and x.kind != 'closure']
+    if len(fs) != 1:
+        return res.lost(R, 'apply_repairs not found')
+    c = fs[0]
+    loops = c.loops()
+    hs = [h for h in loops if any('ParseRepair' in ((callee_of(t).get('self_ty') or '') + str(callee_of(t).get('args') or '')) for bb, t in c.calls_named('next', loops[h]))]
+    if len(hs) != 1:
+        return res.lost(R, 'apply_repairs has not one loop over the repairs (found %d)' % len(hs))
+    h = hs[0]
+    pr = facts.adt('lrpar::parser::ParseRepair')
+    vn = {v['discr']: v['name'] for v in pr['variants']}
+    from lrstep import widening_walker, loop_assigned
+    w = widening_walker(c, facts, max_paths=256)
+    w.widen_headers = set(loops)
+    w.widen_assigned = {x: loop_assigned(c, x) for x in w.widen_headers}
+    seen = {}
+    for p in w.run(h, stop=lambda x: x not in loops[h]):
+        if p.end != ('loop', h):
+            continue
+        poss = set(vn)
+        hit = False
+        for cd, v in p.conds:
+            if cd[0] != 'discr' or is_call(strip_ref(cd[1]), 'next') or not term_has(cd[1], lambda x: is_call(x, 'next')):
+                continue
+            hit = True
+            if isinstance(v, int):
+                poss &= {v}
+            elif isinstance(v, tuple) and v[0] == 'ne':
+                poss -= set(v[1])
+        if not hit or len(poss) != 1:
+            continue
+        kind = vn[next(iter(poss))]
+        # the running index: the usize parameter the loop carries
+        idx = [(k, v) for k, v in p.env.items() if isinstance(k[0], int) and not k[1] and c.lty(k[0]) == 'usize' and 1 <= k[0] <= c.arg_count]
+        if len(idx) != 1:
+            seen[kind] = 'cannot identify the running input index'
+            continue
+        (ik, after) = idx[0]
+        before = None
+        ups = p.calls(name='lr_upto')
+        probs = []
+
+        def is_before(t):
+            return isinstance(t, tuple) and t[0] == 'widen' and t[3] == ik[0]
+
+        def is_plus1(t):
+            return isinstance(t, tuple) and t[0] == 'bin' and t[1] == 'Add' and is_before(t[2]) and t[3] == ('const', 1)
+        if kind == 'Delete':
+            if ups:
+                probs.append('a Delete parses something')
+            if not is_plus1(after):
+                probs.append('the input index is not moved on by exactly one')
+        else:
+            if len(ups) != 1:
+                probs.append('%d parse calls instead of one' % len(ups))
+            else:
+                a = ups[0][3]
+                lex, st, en = a[1], a[2], a[3]
+                def show(t):
+                    return 'index' if is_before(t) else 'index + 1' if is_plus1(t) else fmt_term(t)[:40]
+                if not is_before(st) or not is_plus1(en):
+                    probs.append('the parse does not run over exactly [index, index + 1) (it runs over [%s, %s))' % (show(st), show(en)))
+                if kind == 'Insert':
+                    if find_variant(lex, vname='Some') is None or not find_calls(lex, 'new_faulty'):
+                        probs.append('the lexeme parsed is not Some(a new faulty lexeme)')
+                    if not is_before(after):
+                        probs.append('an Insert moves the input index')
+                else:
+                    if find_variant(lex, vname='None') is None:
+                        probs.append('a Shift parses a synthesised lexeme instead of the input')
+                    if not (is_call(after, 'lr_upto')):
+                        probs.append('the input index does not continue from where the parse of the shifted lexeme ended')
+        seen[kind] = '; '.join(probs)
+    for kind in ('Insert', 'Delete', 'Shift'):
+        key = 'replay:' + kind
+        if kind not in seen:
+            res.bad(R, key, loc_of(c, h), 'no round of the replay loop handles ParseRepair::%s' % kind)
+        elif seen[kind]:
+            res.bad(R, key, loc_of(c, h), 'replaying a %s: %s' % (kind, seen[kind]))
+        else:
+            res.ok(R, key, loc_of(c, h), {'Insert': 'parses Some(new faulty lexeme) over [i, i+1), index unchanged', 'Delete': 'index + 1, nothing parsed',
+                                           'Shift': 'parses the input over [i, i+1), index := where that parse ended'}[kind])
+
+
 def run(facts, res):
+    r56(facts, res)
     r55(facts, res)
     r51(facts, res)
     r52(facts, res)
